@@ -110,9 +110,13 @@ mod run_tail {
             core::mem::forget(event);
         }
     }
-    pub fn write_snapshot(_dir: &ModelUnit, _id: &ModelId, events: &ModelBufGuard<'_>) -> Result<(), ()> {
-        // the guard does not carry the world pointer; the harness reads the snapshot facts from the buffer afterwards
-        Ok(())
+    // best-effort in the real code: the snapshot write may FAIL (any answer) -- the run must be closed all the same
+    pub fn write_snapshot(_dir: &ModelUnit, _id: &ModelId, _events: &ModelBufGuard<'_>) -> Result<(), ()> {
+        if kani::any() {
+            Ok(())
+        } else {
+            Err(())
+        }
     }
     pub struct ModelStore(pub *mut World);
     impl ModelStore {
@@ -170,3 +174,275 @@ macro_rules! c07_run_tail {
 }
 c07_run_tail!(c07_run_tail_kernel_end, false);
 c07_run_tail!(c07_run_tail_provider_end, true);
+
+// ---------------------------------------------------------------------------------------------------------
+// The `InputAction::Prompt` arm of run_session (source slice): the order of the thread's frames for one run --
+// context selection, then context compilation, then the provider loop (tool side effects), then the cursor update, then
+// the session's end frame -- on every outcome of context compilation and of the provider loop; and the fact the tail
+// slice assumes: the arm sets skip_runtime_loop exactly when it emitted the session's end frame itself.
+// Real types are kept where the sliced text names them through explicit paths or moves Strings into them
+// (ContinuityRunLink, ContextSelectionDecidedPayload, ContextCompiledPayload, crate::continuities::ProviderCursorUpdatedPayload);
+// everything with behaviour is a recording model.
+// ---------------------------------------------------------------------------------------------------------
+mod prompt_arm {
+    #![allow(unused)]
+    use super::super::*; // real payload structs, ContinuityRunLink, CONTEXT_COMPILER_ID_V1, ItemParam, Value
+    pub struct World {
+        pub effects: u32,
+        pub selection_at: u32,
+        pub compiled_at: u32,
+        pub loop_at: u32,
+        pub cursor_at: u32,
+        pub ended_at: u32,
+        pub ended_frames: u32,
+        pub ended_reason_len: usize,
+        pub selections: u32,
+        pub compiles: u32,
+        pub loops: u32,
+        pub cursors: u32,
+        pub compile_ok: bool,
+        pub loop_completed: bool,
+        pub loop_has_response_id: bool,
+        pub ids_ok: bool,
+    }
+    #[derive(Clone, Copy)]
+    pub struct ModelUnit;
+    pub struct ModelArc<T>(pub T);
+    impl<T> ModelArc<T> {
+        pub fn as_ref(&self) -> &T {
+            &self.0
+        }
+    }
+    impl<T> core::ops::Deref for ModelArc<T> {
+        type Target = T;
+        fn deref(&self) -> &T {
+            &self.0
+        }
+    }
+    pub struct ModelPathBuf;
+    impl ModelPathBuf {
+        pub fn as_path(&self) -> &ModelPathBuf {
+            self
+        }
+    }
+    pub struct OpenResponsesConfig {
+        pub endpoint: String,
+        pub model: Option<String>,
+    }
+    pub struct ModelKernelSession2;
+    impl ModelKernelSession2 {
+        pub fn seq(&self) -> u64 {
+            1
+        }
+    }
+    pub struct ModelBuf2(pub *mut World);
+    pub struct EventSink<'a> {
+        pub sender: &'a ModelUnit,
+        pub buffer: &'a ModelBuf2,
+        pub event_log: &'a ModelUnit,
+    }
+    pub struct ModelStr;
+    pub struct Uuid;
+    impl Uuid {
+        pub fn new_v4() -> Uuid {
+            Uuid
+        }
+        pub fn to_string(&self) -> ModelStr {
+            ModelStr
+        }
+    }
+    pub fn now_ms() -> u64 {
+        0
+    }
+    pub mod rip_kernel {
+        pub enum EventKind {
+            SessionEnded { reason: String },
+        }
+    }
+    pub struct Event {
+        pub id: ModelStr,
+        pub session_id: String,
+        pub timestamp_ms: u64,
+        pub seq: u64,
+        pub kind: rip_kernel::EventKind,
+    }
+    pub fn emit_event(event: Event, _sender: &ModelUnit, events: &ModelBuf2, _log: &ModelArc<ModelUnit>) {
+        let w = unsafe { &mut *events.0 };
+        w.effects += 1;
+        let rip_kernel::EventKind::SessionEnded { reason } = &event.kind;
+        w.ended_frames += 1;
+        w.ended_at = w.effects;
+        w.ended_reason_len = reason.len();
+        core::mem::forget(event);
+    }
+    // context compilation: succeeds or fails (symbolic)
+    pub struct ModelErr;
+    pub struct ContextSelectionDecisionForRun {
+        pub compiler_id: String,
+        pub compiler_strategy: String,
+        pub limits: Value,
+        pub compaction_checkpoint: Option<::rip_kernel::ContextSelectionCompactionCheckpointV1>,
+        pub compaction_checkpoints: Vec<::rip_kernel::ContextSelectionCompactionCheckpointV1>,
+        pub resets: Vec<::rip_kernel::ContextSelectionResetV1>,
+        pub reason: Option<Value>,
+    }
+    pub struct CompiledContextForRun {
+        pub bundle_artifact_id: String,
+        pub items: Vec<ItemParam>,
+        pub from_seq: u64,
+        pub from_message_id: Option<String>,
+    }
+    pub struct ContextCompileOutcomeForRun {
+        pub decision: ContextSelectionDecisionForRun,
+        pub compiled: CompiledContextForRun,
+    }
+    pub fn compile_context_bundle_for_run(store: &ModelStore2, _log: &ModelUnit, _dir: &ModelPathBuf, _link: &ContinuityRunLink, _sid: &String) -> Result<ContextCompileOutcomeForRun, ModelErr> {
+        let w = unsafe { &mut *store.0 };
+        w.compiles += 1;
+        if w.compile_ok {
+            Ok(ContextCompileOutcomeForRun {
+                decision: ContextSelectionDecisionForRun { compiler_id: super::lit("c"), compiler_strategy: super::lit("y"), limits: Value::Null, compaction_checkpoint: None,
+                                                           compaction_checkpoints: Vec::new(), resets: Vec::new(), reason: None },
+                compiled: CompiledContextForRun { bundle_artifact_id: super::lit("b"), items: Vec::new(), from_seq: 3, from_message_id: None },
+            })
+        } else {
+            Err(ModelErr)
+        }
+    }
+    pub struct ModelStore2(pub *mut World);
+    fn is1(s: &str, b: u8) -> bool {
+        s.len() == 1 && s.as_bytes()[0] == b
+    }
+    impl ModelStore2 {
+        pub fn append_context_selection_decided(&self, thread: &String, payload: ContextSelectionDecidedPayload) -> Result<String, String> {
+            let w = unsafe { &mut *self.0 };
+            w.effects += 1;
+            w.selections += 1;
+            w.selection_at = w.effects;
+            if !(is1(thread, b't') && is1(&payload.run_session_id, b's') && is1(&payload.message_id, b'm')) {
+                w.ids_ok = false;
+            }
+            core::mem::forget(payload);
+            Ok(String::new())
+        }
+        pub fn append_context_compiled(&self, thread: &String, payload: ContextCompiledPayload) -> Result<String, String> {
+            let w = unsafe { &mut *self.0 };
+            w.effects += 1;
+            w.compiles += 0;
+            w.compiled_at = w.effects;
+            if !(is1(thread, b't') && is1(&payload.run_session_id, b's') && payload.from_seq == 3) {
+                w.ids_ok = false;
+            }
+            core::mem::forget(payload);
+            Ok(String::new())
+        }
+        pub fn append_provider_cursor_updated(&self, thread: &String, payload: crate::continuities::ProviderCursorUpdatedPayload) -> Result<String, String> {
+            let w = unsafe { &mut *self.0 };
+            w.effects += 1;
+            w.cursors += 1;
+            w.cursor_at = w.effects;
+            if !(is1(thread, b't') && payload.run_session_id.as_deref().map(|s| is1(s, b's')).unwrap_or(false)) {
+                w.ids_ok = false;
+            }
+            core::mem::forget(payload);
+            Ok(String::new())
+        }
+    }
+    // the JSON value of the cursor is not the subject
+    pub mod serde_json {
+        macro_rules! json {
+            ($($t:tt)*) => {
+                ::serde_json::Value::Null
+            };
+        }
+        pub(crate) use json;
+    }
+    // the provider loop: any outcome
+    pub struct OpenResponsesRunContext<'a> {
+        pub http: &'a ModelUnit,
+        pub config: &'a OpenResponsesConfig,
+        pub tool_runner: &'a ModelUnit,
+        pub workspace_lock: &'a ModelUnit,
+        pub continuities: &'a ModelStore2,
+        pub continuity_run: Option<&'a ContinuityRunLink>,
+        pub session_id: &'a String,
+        pub initial_items: Option<Vec<ItemParam>>,
+        pub prompt: &'a String,
+        pub seq: &'a mut u64,
+        pub sink: EventSink<'a>,
+    }
+    pub struct OpenResponsesLoopOutcome {
+        pub reason: String,
+        pub last_response_id: Option<String>,
+    }
+    pub fn run_openresponses_agent_loop(ctx: OpenResponsesRunContext<'_>) -> OpenResponsesLoopOutcome {
+        let w = unsafe { &mut *ctx.continuities.0 };
+        w.effects += 1;
+        w.loops += 1;
+        w.loop_at = w.effects;
+        *ctx.seq += 1;
+        core::mem::forget(ctx.initial_items);
+        OpenResponsesLoopOutcome {
+            reason: if w.loop_completed { String::from("completed") } else { super::lit("x") },
+            last_response_id: if w.loop_has_response_id { Some(super::lit("r")) } else { None },
+        }
+    }
+    include!("/verif/harness/gen/run_prompt_arm_slice.rs");
+}
+
+macro_rules! c07_prompt_arm {
+    ($name:ident, $configured:expr, $linked:expr, $compile_ok:expr) => {
+#[kani::proof]
+#[kani::unwind(12)]
+#[kani::stub(std::fmt::format, stub_fmt_format)]
+fn $name() {
+    use prompt_arm::*;
+    let mut w = World { effects: 0, selection_at: 0, compiled_at: 0, loop_at: 0, cursor_at: 0, ended_at: 0, ended_frames: 0, ended_reason_len: 0, selections: 0,
+                        compiles: 0, loops: 0, cursors: 0, compile_ok: $compile_ok, loop_completed: kani::any(), loop_has_response_id: kani::any(), ids_ok: true };
+    let wp: *mut World = &mut w;
+    let configured: bool = $configured;
+    let linked: bool = $linked;
+    let config = if configured { Some(OpenResponsesConfig { endpoint: lit("e"), model: None }) } else { None };
+    let link = if linked { Some(ContinuityRunLink { continuity_id: lit("t"), message_id: lit("m"), actor_id: lit("u"), origin: lit("o") }) } else { None };
+    let skip = prompt_arm(config, &ModelKernelSession2, ModelUnit, ModelBuf2(wp), ModelArc(ModelUnit), link, ModelArc(ModelStore2(wp)), ModelArc(ModelPathBuf),
+                          lit("s"), ModelUnit, ModelArc(ModelUnit), ModelArc(ModelUnit), lit("i"));
+    let w = unsafe { &*wp };
+    // the fact assumed by the tail slice
+    assert!(skip == (w.ended_frames == 1) && w.ended_frames <= 1, "skip_runtime_loop is not set exactly when the arm emitted the session's end frame (the session would get no / two end frames)");
+    if !configured {
+        assert!(w.effects == 0 && !skip, "a prompt without a provider configuration must be left to the kernel session");
+    } else {
+        assert!(w.ended_frames == 1, "a provider run did not emit exactly one end frame for the session");
+        assert!(w.ids_ok, "a thread frame of the run names another thread / run / message");
+        if linked {
+            assert!(w.compiles == 1, "context not compiled exactly once for an attached run");
+            if w.compile_ok {
+                assert!(w.selections == 1 && w.selection_at > 0 && w.compiled_at > w.selection_at, "context selection is not recorded before context compilation");
+                assert!(w.loops == 1 && w.loop_at > w.compiled_at, "the provider loop (tool side effects) does not come after context compilation");
+            } else {
+                assert!(w.selections == 0 && w.compiled_at == 0 && w.loops == 0 && w.cursors == 0, "a run whose context did not compile went on");
+            }
+        } else {
+            assert!(w.selections == 0 && w.compiled_at == 0 && w.cursors == 0, "thread frames written for a session that is not attached to a thread");
+            assert!(w.loops == 1, "provider loop not run exactly once");
+        }
+        if w.loops == 1 {
+            let want_cursor = linked && w.loop_completed && w.loop_has_response_id;
+            assert!(w.cursors == if want_cursor { 1 } else { 0 }, "provider cursor update not written exactly when the run completed with a response id");
+            if want_cursor {
+                assert!(w.cursor_at > w.loop_at, "cursor update does not follow the provider loop (tool side effects)");
+                assert!(w.ended_at > w.cursor_at, "the session's end frame does not follow the cursor update");
+            }
+            assert!(w.ended_at > w.loop_at, "the session's end frame does not follow the provider loop");
+        }
+    }
+    kani::cover!(true, "decided");
+    kani::cover!(!(configured && w.loops == 1 && linked) || w.cursors == 1 || !w.loop_completed || !w.loop_has_response_id, "cursor written on a completed run");
+}
+    };
+}
+// shapes: provider configured?, attached to a thread?, context compiles?  (loop outcome stays symbolic)
+c07_prompt_arm!(c07_prompt_arm_full_run, true, true, true);
+c07_prompt_arm!(c07_prompt_arm_compile_failed, true, true, false);
+c07_prompt_arm!(c07_prompt_arm_unattached, true, false, true);
+c07_prompt_arm!(c07_prompt_arm_unconfigured, false, true, true);
